@@ -1,4 +1,4 @@
-//! crash stream (C16): query texts that may abort the process run in a child (`nvh child crash <kind> <n> [exec]`).
+//! crash stream (C16): query texts that may abort the process run in a child (`nvh child hostcrash <kind> <n> [exec]`).
 //!
 //! ops:  deep <kind> <n> <mode>    kind: paren | list | not | neg | plus | and | sub | foreach | prop | case | fn
 //!                                 mode: prepare | exec
@@ -13,7 +13,7 @@ use std::process::{Command, Stdio};
 use std::time::{Duration, Instant};
 
 pub fn def() -> StreamDef {
-    StreamDef { name: "crash", generate, new_state: || Box::new(S), child }
+    StreamDef { name: "hostcrash", generate, new_state: || Box::new(S), child }
 }
 
 struct S;
@@ -83,7 +83,7 @@ pub fn mutated(seed: u64, len: usize) -> String {
     s
 }
 
-/// child entry: `nvh child crash deep <kind> <n> <mode>` | `nvh child crash mut <seed> <len>`
+/// child entry: `nvh child hostcrash deep <kind> <n> <mode>` | `nvh child hostcrash mut <seed> <len>`
 fn child(args: &[String]) -> i32 {
     match args.first().map(|s| s.as_str()) {
         Some("deep") => {
@@ -150,7 +150,7 @@ fn child(args: &[String]) -> i32 {
 
 fn spawn(args: &[&str]) -> String {
     let exe = std::env::current_exe().expect("exe");
-    let mut ch = Command::new(exe).arg("child").arg("crash").args(args).stdout(Stdio::null()).stderr(Stdio::null()).spawn().expect("spawn");
+    let mut ch = Command::new(exe).arg("child").arg("hostcrash").args(args).stdout(Stdio::null()).stderr(Stdio::null()).spawn().expect("spawn");
     let t0 = Instant::now();
     loop {
         match ch.try_wait().expect("wait") {
